@@ -408,7 +408,7 @@ def main():
                       serves_properties=[c["property_id"] for c in checks],
                       kind_free_text="TLC 1.8 explicit-state model checker on /verif/spec/*.tla; harness/ replays/validates against /repo")],
         checks=checks,
-        notes="See DESIGN.md (section 11 describes the tree as built). known_findings.json lists recorded (C15 documented no-copy aliasing) and fixed defects; seeded/ holds the seeded changes and seeded/RESULTS.json which check detects which.",
+        notes="See DESIGN.md (section 11 describes the tree as built). known_findings.json lists recorded (C15 documented no-copy aliasing) and fixed defects; seeded/ holds the seeded changes and seeded/RESULTS.json which check detects which. Extra checks beyond the fixed property list (same interface, ./check X01|X02|X03): X01 generalized grids / IterMesh protocol / Brillouin-zone relocation, X02 unfolding and modulation, X03 dynamic structure factor and moments (DESIGN.md 11.6).",
         not_applicable=na,
     )
     with open(os.path.join(VERIF, "MANIFEST.json"), "w") as f:
